@@ -48,6 +48,7 @@ let () =
       | _ -> "ERR args")
 
 let () = Handlers.install register
+let () = H_c19.install register
 
 let () =
   try
